@@ -39,7 +39,14 @@ func genC06(p *Plan, r *RNG) {
 			}
 			p.Ops = append(p.Ops, Op{Actor: c, Kind: "refresh", At: ref("alloc_deadline", off, c), A: OpArgs{Lifetime: r.PickI64(lifetimesReq)}})
 		case 3:
-			p.Ops = append(p.Ops, Op{Actor: c, Kind: "refresh", At: gap(int64(r.Range(1, 5000)) * ms), A: OpArgs{Lifetime: r.PickI64([]int64{0, 0, -1, 7})}})
+			o := Op{Actor: c, Kind: "refresh", At: gap(int64(r.Range(1, 5000)) * ms), A: OpArgs{Lifetime: r.PickI64([]int64{0, 0, -1, 7})}}
+			if r.Chance(1, 3) {
+				// REQUESTED-ADDRESS-FAMILY in a Refresh: matching the allocation it is a normal
+				// refresh, mismatching it is refused with 443 - and a refused request changes nothing
+				o.A.Family = r.Pick([]string{"4", "6", "6"})
+				o.A.Lifetime = r.PickI64([]int64{0, 1, 7, 600, -1})
+			}
+			p.Ops = append(p.Ops, o)
 		case 4:
 			// probe relay both ways around the deadline
 			off := r.PickI64(edgeOffsets)
